@@ -105,6 +105,31 @@ def relabel(params):
             "note": "searched a family of label maps with reference labels near the dtype maximum and non-consecutive labels"}
 
 
+def large_labels(params):
+    """sparse, very large labels where a prediction id coincides with a reference id that another prediction is mapped to: the returned
+    pair must carry exactly the matcher's assignment (a relabelling applied entry after entry to its own output would chain)"""
+    serial_pools()
+    from panoptica.instance_matcher import NaiveThresholdMatching, MaximizeMergeMatching
+    from panoptica.utils.processing_pair import UnmatchedInstancePair
+    failures, evals = [], 0
+    for big in (3_000_000, 5_000_000):
+        for dt_ in ("uint32", "uint64"):
+            ref = np.array([1, 1, 1, 1, 0, big, big, big, big, 0, 0, 0], dt_)
+            pred = np.array([2, 2, 2, 2, 0, 1, 1, 1, 0, 0, big, 0], dt_)
+            for mt_name in ("naive", "many", "merge"):
+                mt = {"naive": NaiveThresholdMatching(), "many": NaiveThresholdMatching(matching_threshold=0.2, allow_many_to_one=True), "merge": MaximizeMergeMatching()}[mt_name]
+                evals += 1
+                try:
+                    lm = dict(mt._match_instances(UnmatchedInstancePair(pred.copy(), ref.copy())).labelmap)
+                    out = mt.match_instances(UnmatchedInstancePair(pred.copy(), ref.copy()))
+                    bad = check_relabel(pred, ref, lm, out.prediction_arr, out.reference_arr)
+                except Exception as e:
+                    bad = [f"raised {type(e).__name__}: {e}"[:160]]
+                if bad and len(failures) < 5:
+                    failures.append({"input": {"pred": pred.tolist(), "ref": ref.tolist(), "matcher": mt_name, "dtype": dt_}, "problems": bad[:3], "replay_kind": "c04.e2e"})
+    return {"violated": bool(failures), "problems": [f["problems"] for f in failures][:3], "failures": failures, "evaluations": evals}
+
+
 def bounded(params):
     serial_pools()
     from panoptica.instance_matcher import NaiveThresholdMatching, MaximizeMergeMatching
@@ -135,6 +160,9 @@ def bounded(params):
                     bad = [f"raised {type(e).__name__}: {e}"[:160]]
                 if bad and len(failures) < 5:
                     failures.append({"input": {"pred": pred.tolist(), "ref": ref.tolist(), "matcher": mt_name}, "problems": bad[:3], "replay_kind": "c04.e2e"})
+    ll = large_labels({})
+    evals += ll["evaluations"]
+    failures += ll["failures"][: max(0, 5 - len(failures))]
     from . import c09 as _c09
     for dt_ in ("uint8", "uint16", "uint32"):
         for res, kind in ((relabel({"dtype": dt_}), "c04.relabel"), (_c09.maplabels({"dtype": dt_}), "c09.maplabels")):
